@@ -48,7 +48,7 @@ impl<'a, E: Elem> GIter2<'a, E> {
                     }
                 }
                 let model: VecDeque<u32> = infra(|| got.into_iter().collect());
-                self.put_it(cx, ItObj { it: it2, model, front: 0 });
+                self.put_it(cx, ItObj { it: it2, model, front: 0, deferred: infra(Vec::new), deferred_anon: 0 });
             }
             Err(p) => on_panic(cx, "iterator clone", p),
         }
